@@ -35,7 +35,7 @@ def required_counters(tier):
     return {'judged:centre': 200, 'judged:boundary-probe': 1000, 'judged:length-vs-scale': 300, 'judged:class': 200,
             'lane:CircleSkyRegion': 10, 'lane:EllipseSkyRegion': 10, 'lane:RectangleSkyRegion': 10, 'lane:CircleAnnulusSkyRegion': 10,
             'lane:EllipseAnnulusSkyRegion': 10, 'lane:RectangleAnnulusSkyRegion': 10, 'region-in-other-frame': 30,
-            'centre-exactly-on-equator': 20, 'annulus-hole-with-equal-axes': 20}
+            'centre-exactly-on-equator': 20, 'annulus-hole-with-equal-axes': 20, 'centre-exactly-at-crval': 20, 'centre-with-distance': 20}
 
 
 CLASSES = ['CircleSkyRegion', 'EllipseSkyRegion', 'RectangleSkyRegion', 'CircleAnnulusSkyRegion', 'EllipseAnnulusSkyRegion',
@@ -81,6 +81,14 @@ def run_case(case, obs):
         # frame's north (the oracle offsets are made in the region's own frame and pushed through world_to_pixel)
         centre = centre.transform_to(case['other_frame'])
         obs.count('region-in-other-frame')
+    if case['rs'] % 9 == 0 and not case.get('other_frame') and not case.get('equator'):
+        # the reference coordinate of the image itself (CRVAL), given in the image's own frame: an ordinary place to centre a region
+        centre = SkyCoord(w.wcs.crval[0] * u.deg, w.wcs.crval[1] * u.deg, frame=centre.frame)
+        obs.count('centre-exactly-at-crval')
+    if case['rs'] % 7 == 0:
+        # a catalogue position that also carries a distance (the direction is what defines the region)
+        centre = SkyCoord(centre.spherical.lon, centre.spherical.lat, distance=[8.2 * u.kpc, 140 * u.pc, 0.03 * u.Mpc][case['rs'] % 3], frame=centre.frame)
+        obs.count('centre-with-distance')
     if case.get('equator'):
         lon = 0.0 * u.deg if (abs(centre.spherical.lon.wrap_at(180 * u.deg).deg) < 1.0 and case['rs'] % 2) else centre.spherical.lon
         centre = SkyCoord(lon, 0.0 * u.deg, frame=centre.frame)
